@@ -519,7 +519,10 @@ class C11(Prop):
         script.append({'s': 'lookup', 'filter': True})
         script.append({'s': 'play', 'ns': 'plast.', 'clean': True})
         script.append({'s': 'lookup', 'filter': False})
-        return {'cassette': rng.choice(['mem', 'file', 's3']), 'copy': copy, 'body': body, 'md': md, 'script': script}
+        return {'cassette': rng.choice(['mem', 'file', 's3']), 'copy': copy, 'body': body, 'md': md, 'script': script,
+                # inputs intercepted through a (pass-through) data handler: copy-on-interception applies to them as well
+                'handler_ins': [a for a in ins if rng.random() < 0.3 and not any(
+                    st['s'] == 'in' and st['alias'] == a and st['tree'].get('k') == 'obj:BoxError' for st in body)]}
 
     def maybe_mut(self, rng, body, shapes, embedded, v, when_pool, p=0.6):
         if rng.random() > p or v in embedded:
@@ -609,8 +612,21 @@ class C11(Prop):
                                 emit(['play_data', st['key']], from_py(v))
                     return 'done'
 
+            from playback.interception.input_interception import InputInterceptionDataHandler
+
+            class PassThrough(InputInterceptionDataHandler):
+                """a data handler that records the value it is given as it is (so what is recorded still references the live
+                value unless the recorder copies it) and hands the recorded value back on replay"""
+
+                def prepare_input_for_recording(self, interception_key, result, args, kwargs):
+                    return result
+
+                def restore_input_from_recording(self, recorded_data, args, kwargs):
+                    return recorded_data
+
             def mk_in(alias):
-                @tr.intercept_input(alias)
+                @(tr.intercept_input(alias, data_handler=PassThrough()) if alias in case.get('handler_ins', [])
+                  else tr.intercept_input(alias))
                 def f(self):
                     v = to_py(env['build'])
                     if isinstance(v, BoxError):
